@@ -271,6 +271,21 @@ pub fn run(desc: &Value, ctx: &Ctx) -> CaseOut {
                 match create_container_ex(&case, &adir, "c.jbk", &root.join("pool"), Arc::new(())) {
                     Ok(created) => {
                         judge!("extras-in-another-directory", &created.path, &case, &created);
+                        // the same container reached through a symbolic link to its directory placed elsewhere: the recorded
+                        // `../pool/…` is relative to where the container really is (the OS resolves `..` after the link)
+                        let deep = root.join("elsewhere").join("deep");
+                        std::fs::create_dir_all(&deep).unwrap();
+                        let link = deep.join("alink");
+                        if std::os::unix::fs::symlink(&adir, &link).is_ok() {
+                            judge!("extras-via-symlinked-directory", &link.join("c.jbk"), &case, &created);
+                        }
+                        // and by a relative path from its own directory
+                        if let Ok(cwd) = std::env::current_dir() {
+                            if std::env::set_current_dir(&adir).is_ok() {
+                                judge!("extras-by-relative-path", Path::new("./c.jbk"), &case, &created);
+                                let _ = std::env::set_current_dir(cwd);
+                            }
+                        }
                     }
                     Err(e) => out.violate(json!({"kind": "create-error", "scenario": "extras-in-another-directory", "message": util::normalize_msg(&e), "profile": profile()}), format!("C10: creating a container with extra packs in another directory failed: {e}"), json!({})),
                 }
